@@ -5,31 +5,33 @@ import XixiKV.Proofs.ConcBatchHist
 import XixiKV.Model.LocksetBatch
 /-!
 # C08 / C05 / C09 with batches: a committed batch is ONE atomic multi-key write for every
-concurrent observer — under a premise the current tree does not meet for all batches
+concurrent observer
 
 Model: `XixiKV.ConcBatch` (`Model/ConcBatch.lean`): `DB.Put / DB.Delete / DB.Get` as in
-`Model/Conc.lean` (current, well-locked shape) plus batch sessions `NewBatch · Batch.Put* /
+`Model/Conc.lean` (well-locked shape) plus batch sessions `NewBatch · Batch.Put* /
 Batch.Delete* · Commit` with EARLY FLUSHES and record-by-record index updates; `DB.Get` =
-index read (`Shape.getIdxGated`: inside an R section of `db.mu` or, as in the current tree, not)
-followed by a resolve step that is enabled only while no writer holds `db.mu`; unbounded threads,
-arbitrary scheduler.  `recovered log` = replay with parked batches (`Engine.replayRec`).
+index read (`Shape.getIdxGated`: inside an R section of `db.mu`, or not) followed by a resolve
+step that is enabled only while no writer holds `db.mu`; unbounded threads, arbitrary scheduler.
+`recovered log` = replay with parked batches (`Engine.replayRec`).
 
-Premise of the linearizability theorems: `sh.getIdxGated = true ∨ BenignFlushes g.hist`.
+Premise of the general theorems: `sh.getIdxGated = true ∨ BenignFlushes g.hist`.
 
 * `sh.getIdxGated = true`: `DB.Get` takes `db.mu.RLock()` BEFORE `db.index.Get`.  The generated
-  lockset table of the current tree says it does not (`C08B_generated`: `batchShapeOf … = asIs`).
+  lockset table of the CURRENT tree says it does (`C08B_generated`: `batchShapeOf … = gated`), so
+  the `…_code` corollaries below are unconditional.
 * `BenignFlushes g.hist`: every flush recorded in the history (early or at commit) wrote no
   tombstone and no key that the rest of the batch touches again.  True without batches; true
   for put-only batches that write every key once (`C08B_linearizable_putonly`); decidable on a
   given history.
 
-Without the premise the statement is FALSE for the current tree — three executed schedules
-(`C08B_needs_gate_delete`, `C08B_needs_gate_rewrite`, `C08B_needs_gate_torn_commit`), each
-reproduced on the real Go code: a `Get` of a key deleted by a still OPEN batch returns
-`ErrKeyNotFound` at once (the miss path of `DB.Get` never touches `db.mu`), a `Get` returns a
-value the batch later overwrote (never a committed value), and a reader sees a committed batch
-half applied.  So DESIGN §5 C05 "partial flush updates the index early but the lock keeps it
-unobservable" holds exactly for the flushes called benign here.
+Without the premise the statement is FALSE: three executed schedules of the shape `asIs` — the
+tree up to e7b2d7b, where `DB.Get` read the index without `db.mu` — (`C08B_needs_gate_delete`,
+`C08B_needs_gate_rewrite`, `C08B_needs_gate_torn_commit`), each reproduced on that Go code: a `Get`
+of a key deleted by a still OPEN batch returned `ErrKeyNotFound` at once (the miss path of
+`DB.Get` never touched `db.mu`), a `Get` returned a value the batch later overwrote (never a
+committed value), and a reader saw a committed batch half applied.  The repair ("readers take the
+DB read lock before they consult the index") moves the index read of `Get`, the snapshots of
+`ListKeys / Fold / NewIterator` and the liveness test of `Merge` under `db.mu.RLock()`.
 
 History convention: `g.hist` is newest-first.
 -/
@@ -224,7 +226,7 @@ batch's value -/
 example : ∃ h2 h1, doneState.hist = h2 ++ .ret 2 (.val (some 20)) :: h1 :=
   List.append_of_mem (by decide +kernel)
 
-/-- A static, input-level sufficient condition for the current tree (any shape): if every batch
+/-- A static, input-level sufficient condition that does not need the gate (any shape): if every batch
 invoked so far consists of `Put`s of pairwise distinct keys, all flushes are benign and the
 history is linearizable. -/
 theorem C08B_linearizable_putonly {sh : Shape} {g : G} (hr : Reachable sh g)
@@ -276,10 +278,10 @@ example : aheadState.hist =
     ∀ op r, Ev.lin 1 op r ∉ [Ev.inv 2 (.get 2)] :=
   ⟨by decide +kernel, by simp⟩
 
-/-! ## the premise is necessary: three schedules of the current tree
+/-! ## the premise is necessary: three schedules of the tree before the repair
 
-All three run on `Shape.asIs` (what the generated table gives, `C08B_generated`) and were
-reproduced on the Go code (`DataFileSize = 4096`, two 2000-byte values force the early flush). -/
+All three run on `Shape.asIs` (what the generated table gave up to e7b2d7b) and were reproduced
+on that Go code (`DataFileSize = 4096`, two 2000-byte values force the early flush). -/
 
 /-- 1. An early-flushed DELETE is observable at once.  `1 ↦ 10` is committed; a batch
 `[Delete 1, Put 2 20]` is open and has flushed its tombstone early (`db.index.Delete(1)`).
@@ -350,17 +352,69 @@ set_option maxRecDepth 100000 in
 `DB.Put`/`DB.Delete` have the well-locked shape (`C08`), every log append / index access of
 `Batch.Put`, `Batch.Delete`, `Batch.Commit` is in W mode in the section opened by `DB.NewBatch`,
 `DB.NewBatch` returns holding W, `Batch.Commit` releases exactly at its returns (after the sealing
-append on the success path), `DB.Get` passes an R acquisition before it reads a data file — and
-the index read of `DB.Get` is NOT under `db.mu`: the shape of the current tree is `asIs`. -/
+append on the success path), `DB.Get` passes an R acquisition before it reads a data file, its
+index read and its data-file look-up are in ONE R section, every read of the index content on a
+shared handle (`Get`, `Merge`'s liveness test, the snapshots of `ListKeys / Fold / NewIterator`)
+is under `db.mu` — and so the shape of the current tree is `gated`. -/
 theorem C08B_generated :
     WellLocked Generated.locksetTable ∧ BatchSectionW Generated.locksetTable ∧
     NewBatchHoldsW Generated.locksetTable ∧ CommitReleases Generated.locksetTable ∧
-    GetResolveGated Generated.locksetTable ∧
-    batchShapeOf Generated.locksetTable = Shape.asIs := by decide +kernel
+    GetResolveGated Generated.locksetTable ∧ GetOneSection Generated.locksetTable ∧
+    IndexReadsLocked Generated.locksetTable ∧
+    batchShapeOf Generated.locksetTable = Shape.gated := by decide
+
+/-- the shape flag of the current tree -/
+theorem code_gated : (batchShapeOf Generated.locksetTable).getIdxGated = true := by
+  rw [C08B_generated.2.2.2.2.2.2.2]; rfl
+
+/-! ## the unconditional statements for the code as it is -/
+
+/-- `C08B_linearizable` for the shape computed from the generated lockset table: no condition on
+the batches (tombstones, keys written several times, any number of early flushes). -/
+theorem C08B_linearizable_code {g : G} (hr : Reachable (batchShapeOf Generated.locksetTable) g) :
+    Linearizable g.hist ∧
+    specRun g.hist = some (specMap g) ∧
+    (∀ t, phase g.hist t = some (phaseOf g t)) ∧
+    g.waiters = [] :=
+  have h := C08B_linearizable hr (.inl code_gated)
+  ⟨h.1, h.2.1, h.2.2.1, (reachable_invL hr (.inl code_gated)).gatedW code_gated⟩
+
+/-- `C08B_completed_ops` for the code as it is -/
+theorem C08B_completed_ops_code {g : G} (hr : Reachable (batchShapeOf Generated.locksetTable) g)
+    {t : Tid} {r : Res} {h2 h1 : List Ev} (hh : g.hist = h2 ++ .ret t r :: h1) :
+    ∃ op hl hm h0 m,
+      h1 = hl ++ .lin t op r :: (hm ++ .inv t op :: h0) ∧
+      (∀ e ∈ hl, ownEv t e = false) ∧ (∀ e ∈ hm, ownEv t e = false) ∧
+      specRun (hm ++ .inv t op :: h0) = some m ∧ (specStep m op).2 = r :=
+  C08B_completed_ops hr (.inl code_gated) hh
+
+/-- `C05_partial_flush_unobservable` for the code as it is: between a flush of an open batch and
+its commit nothing takes effect at all — not even a `Get` (`h2` has NO linearization event): every
+reader is held off at `db.mu.RLock()` before it can look at the index. -/
+theorem C05_partial_flush_unobservable_code {g : G}
+    (hr : Reachable (batchShapeOf Generated.locksetTable) g)
+    {t : Tid} {recs rest : List BOp} {h2 h1 : List Ev}
+    (hh : g.hist = h2 ++ .flush t recs rest :: h1) (hopen : ∀ op r, Ev.lin t op r ∉ h2) :
+    g.writer = some t ∧ isBat (g.pc t) = true ∧
+    ∃ m, specRun h1 = some m ∧ specRun g.hist = some m ∧
+      ∀ t' op r, Ev.lin t' op r ∈ h2 → ∃ k, op = .get k ∧ r = .val (m k) :=
+  C05_partial_flush_unobservable hr (.inl code_gated) hh hopen
+
+/-- the hypotheses are met by an executed schedule of the code's shape: the state of `sGated`
+(a batch with a tombstone and a rewritten key, flushed early) is reachable, its history contains
+the return of the `Get` and the early flush -/
+example : Reachable (batchShapeOf Generated.locksetTable) ((exec .gated sGated init).getD init) ∧
+    (∃ h2 h1, ((exec .gated sGated init).getD init).hist = h2 ++ .ret 2 (.val (some 5)) :: h1) ∧
+    (∃ h2 h1, ((exec .gated sGated init).getD init).hist =
+      h2 ++ .flush 1 [(1, none)] [(2, some 21), (1, some 5)] :: h1) := by
+  rw [C08B_generated.2.2.2.2.2.2.2]
+  exact ⟨exec_init_reachable (by decide +kernel), List.append_of_mem (by decide +kernel),
+    List.append_of_mem (by decide +kernel)⟩
 
 /-- the predicates are not vacuous: a `DB.Get` that reads the file before the gate, a `NewBatch`
-that releases, a `Commit` that releases before its sealing append are rejected; a `DB.Get` with
-the index read under the read lock gives the gated shape -/
+that releases, a `Commit` that releases before its sealing append are rejected; the `DB.Get` of
+the tree before the repair (index read without the lock) gives the shape `asIs` and fails
+`IndexReadsLocked` -/
 example :
     ¬ GetResolveGated [⟨"DB.Get", 0, "idxGet", .none, 0⟩, ⟨"DB.Get", 1, "readFile", .none, 0⟩,
       ⟨"DB.Get", 2, "acqR", .R, 1⟩, ⟨"DB.Get", 3, "relR", .R, 1⟩, ⟨"DB.Get", 4, "ret", .none, 0⟩] ∧
@@ -369,8 +423,11 @@ example :
     ¬ CommitReleases [⟨"Batch.Commit", 0, "retErr", .W, 1⟩, ⟨"Batch.Commit", 1, "appendAll", .W, 1⟩,
       ⟨"Batch.Commit", 2, "relW", .W, 1⟩, ⟨"Batch.Commit", 3, "append", .none, 0⟩,
       ⟨"Batch.Commit", 4, "ret", .none, 0⟩] ∧
-    batchShapeOf [⟨"DB.Get", 0, "acqR", .R, 1⟩, ⟨"DB.Get", 1, "idxGet", .R, 1⟩,
+    batchShapeOf [⟨"DB.Get", 0, "idxGet", .none, 0⟩, ⟨"DB.Get", 1, "acqR", .R, 1⟩,
       ⟨"DB.Get", 2, "readFile", .R, 1⟩, ⟨"DB.Get", 3, "relR", .R, 1⟩,
-      ⟨"DB.Get", 4, "ret", .none, 0⟩] = Shape.gated := by decide +kernel
+      ⟨"DB.Get", 4, "ret", .none, 0⟩] = Shape.asIs ∧
+    ¬ IndexReadsLocked [⟨"DB.Get", 0, "idxGet", .none, 0⟩, ⟨"DB.Get", 1, "acqR", .R, 1⟩,
+      ⟨"DB.Get", 2, "readFile", .R, 1⟩, ⟨"DB.Get", 3, "relR", .R, 1⟩,
+      ⟨"DB.Get", 4, "ret", .none, 0⟩] := by decide +kernel
 
 end XixiKV.C08B
